@@ -135,7 +135,7 @@ Record evdesc := mkED {               (* what a handler sees of one event *)
 
 Inductive tev :=
 | TRet (z : Z)                              (* return code of a scripted call *)
-| TCb (m : modid) (k : cbkind) (n : nat) (h : nat) (evs : list evdesc)
+| TCb (m : modid) (k : cbkind) (n : nat) (h : nat) (st : mstate) (evs : list evdesc)   (* st: the module's state when the callback starts *)
 | TCbEnd
 | TFreeData (d : N)                         (* payload / userdata released through the allocator *)
 | TClose (fd : N)                           (* user descriptor closed by the library *)
@@ -143,7 +143,7 @@ Inductive tev :=
 | TVal (z : Z)                              (* value of a query (lengths, counts) *)
 | TLive (nmod nsrc nmsg nevt ndata nctx nfd : nat)
 | TFault (what : nat)                       (* the model left its domain (dead object used, fuel, known-finding region) *)
-| TMark (n : nat).
+| TMark (n : nat) (arg : N).                 (* a scripted call starts: its tag and, for sends, the payload id *)
 
 (* ---------- scripts ---------- *)
 Inductive call :=
